@@ -145,3 +145,5 @@ Definition float_approx_b64 (fraction margin : Q) : vcmp := fun x y =>
 Definition small_dyadic (q : Q) : bool :=
   pow2 (Qden q) && (Z.pos (Qden q) <=? 1024) && (Z.abs (Qnum q) <=? 1048576).
 Definition fl_small (a : fl) : bool := match a with FFin q => small_dyadic q | _ => true end.
+Definition val_small (x : cval) : bool :=
+  match x with CS (CF32 a) | CS (CF64 a) => fl_small a | _ => true end.
